@@ -1,8 +1,15 @@
 package client
 
 import (
+	"encoding/json"
+	"fmt"
+	"sync"
+	"sync/atomic"
 	"testing"
 	"time"
+
+	"github.com/pion/stun/v3"
+	"github.com/pion/stun/v3/verifharness/sim"
 
 	"github.com/pion/stun/v3/verifharness/evid"
 	"github.com/pion/stun/v3/verifharness/pbt"
@@ -104,4 +111,137 @@ func summarize(c clientCase) any {
 	return s
 }
 
-func TestC12_Replay(t *testing.T) { replayHistories(t, "C12") }
+func TestC12_Replay(t *testing.T) {
+	replayHistories(t, "C12")
+	rec := evid.For("C12")
+	for _, path := range evid.ReplayFiles() {
+		rp, err := evid.LoadReplay(path)
+		if err != nil || rp.Property != "C12" || rp.Kind != "concurrent" {
+			continue
+		}
+		var c c12Conc
+		if err := json.Unmarshal(rp.Case, &c); err != nil {
+			t.Fatalf("bad replay %s: %v", path, err)
+		}
+		rec.Count("replays_run", 1)
+		for i := 0; i < 100; i++ {
+			if err := runC12Conc(c); err != nil {
+				rec.ReplayFailed(path, err.Error())
+				t.Errorf("replay %s fails (run %d): %v", path, i, err)
+
+				break
+			}
+		}
+	}
+}
+
+// ---- concurrent variant: many goroutines, distinct responses, race detector ----
+
+type c12Conc struct {
+	Goroutines int  `json:"goroutines"`
+	Each       int  `json:"each"`
+	Fallback   bool `json:"fallback"`
+	Noise      int  `json:"noise"` // every n-th written request is also answered for an unknown id
+}
+
+func runC12Conc(c c12Conc) error {
+	var fallbackBad atomic.Value
+	known := map[[12]byte]bool{}
+	for g := 0; g < c.Goroutines; g++ {
+		for k := 0; k < c.Each; k++ {
+			known[txID(g*8+k)] = true
+		}
+	}
+	o := sim.Options{RTO: 10 * time.Second}
+	if c.Fallback {
+		o.Fallback = func(e stun.Event) {
+			// only datagrams that match no started transaction may arrive here (ids 60000+ or duplicates)
+			if e.Message == nil {
+				fallbackBad.Store("fallback handler received an event without a message: " + classifyEvent(e))
+			}
+		}
+	}
+	w, err := sim.NewWorld(o)
+	if err != nil {
+		return err
+	}
+	var written atomic.Int64
+	w.Conn.AfterWrite = func(b []byte, err error) {
+		if err != nil || len(b) < 20 {
+			return
+		}
+		id := int(b[18])<<8 | int(b[19])
+		n := written.Add(1)
+		if c.Noise > 0 && n%int64(c.Noise) == 0 {
+			w.Conn.Enqueue(response(60000+int(n%4000), int(n), 0))
+			w.Conn.Enqueue([]byte{0, 1, 0, 0, 1, 2, 3})
+		}
+		w.Conn.Enqueue(response(id, id, 0)) // serial == id: the payload names the transaction
+	}
+	var wg sync.WaitGroup
+	errs := make(chan error, c.Goroutines*c.Each+1)
+	for g := 0; g < c.Goroutines; g++ {
+		g := g
+		wg.Add(1)
+		go func() {
+			defer wg.Done()
+			for k := 0; k < c.Each; k++ {
+				id := g*8 + k
+				want := response(id, id, 0)
+				calls := 0
+				derr := w.Client.Do(request(id, 28), func(e stun.Event) {
+					calls++
+					switch {
+					case e.Error != nil:
+						errs <- fmt.Errorf("transaction %d received error %v", id, e.Error)
+					case e.TransactionID != txID(id) || e.Message.TransactionID != txID(id):
+						errs <- fmt.Errorf("handler of transaction %d received a message for id %x", id, e.TransactionID)
+					case string(e.Message.Raw) != string(want):
+						errs <- fmt.Errorf("handler of transaction %d received datagram %x, want its own response %x", id, e.Message.Raw, want)
+					}
+				})
+				if derr != nil {
+					errs <- fmt.Errorf("Do(%d) returned %v", id, derr)
+				}
+				if calls != 1 {
+					errs <- fmt.Errorf("callback of transaction %d ran %d times", id, calls)
+				}
+			}
+		}()
+	}
+	done := make(chan struct{})
+	go func() { wg.Wait(); close(done) }()
+	select {
+	case <-done:
+	case <-time.After(30 * time.Second):
+		_ = w.Client.Close()
+
+		return fmt.Errorf("concurrent Do calls did not all return within 30 s")
+	}
+	_ = w.Client.Close()
+	close(errs)
+	for e := range errs {
+		return e
+	}
+	if s, _ := fallbackBad.Load().(string); s != "" {
+		return fmt.Errorf("%s", s)
+	}
+
+	return nil
+}
+
+func TestC12_Concurrent(t *testing.T) {
+	rec := evid.For("C12")
+	c12Notes(rec)
+	pbt.Check(t, rec, "concurrent", evid.Pick(150, 3000), func(rt *rapid.T) (any, error) {
+		c := c12Conc{Goroutines: rapid.SampledFrom([]int{1, 5, 10, 25, 100, 250}).Draw(rt, "goroutines"), Each: rapid.IntRange(1, 6).Draw(rt, "each"),
+			Fallback: rapid.Bool().Draw(rt, "fallback"), Noise: rapid.SampledFrom([]int{0, 1, 3}).Draw(rt, "noise")}
+		var err error
+		if perr := pbt.Safely(func() { err = runC12Conc(c) }); perr != nil {
+			err = perr
+		}
+		rec.Case("concurrent", evid.NewH().Str(fmt.Sprint(c)).Sum(), c.Goroutines > 1, func() any { return c })
+
+		return c, err
+	})
+}
